@@ -8,7 +8,8 @@
    instance by the correspondence check only).
 
    Classes (decidable predicates on host operations):
-     early_exit h      (known finding C07a) the entry point returns through an early `?` before truncating
+     (the former class C07a — entry points returning through an early `?` before truncating — is closed:
+      koto aa2ee9a wraps them in with_register_cleanup, which the model follows; no hypothesis is left for it)
      safe (op_code h)  complement of known finding C07b: no error can be raised between StringStart /
                        SequenceStart and the matching finish
      flat (op_code h)  the activation does not re-enter the vm through a native function.
@@ -22,13 +23,13 @@ From KV.rt Require Import GenRtConsts RtModel RtProofs RtRun.
 Import ListNotations.
 Open Scope Z_scope.
 
-(* registers, call stack and register base are restored by every host operation outside class C07a, for every
+(* registers, call stack and register base are restored by every host operation (early `?` exits included), for every
    outcome (Ok, thrown, runtime error, failed type check, timeout), whatever happens to the builders *)
 Theorem entry_restores_frames : forall h, in_class h = true -> forall v, clean v ->
   fst (host h v) <> HPanic /\ frames_clean (snd (host h v)).
 Proof. exact entry_restores_frames_thm. Qed.
 
-(* outside C07a and C07b: from a clean state every host operation returns to a clean state, for every outcome *)
+(* outside C07b: from a clean state every host operation returns to a clean state, for every outcome *)
 Theorem entry_restores : forall h, in_class_b h = true -> forall v, clean v ->
   fst (host h v) <> HPanic /\ clean (snd (host h v)).
 Proof. exact entry_restores_thm. Qed.
@@ -38,16 +39,15 @@ Theorem history_equiv : forall ops, forallb in_class_b ops = true -> forall v, c
   Forall (fun r => fst r <> HPanic /\ clean (snd r)) (history ops v).
 Proof. exact history_clean_thm. Qed.
 
-(* known finding C07a: a failing host-initiated call of a native function (1 argument) leaves 3 registers;
-   85 of them and the next `run` computes its frame base modulo 256; 170 of them and the next call of a Koto
-   function panics (frame_base + 1 overflows u8) *)
-Theorem entry_restores_refuted_early_exit :
-  early_exit (HCallPre 1) = true /\
-  sizes (snd (host (HCallPre 1) fresh)) = (3, 0, 0, 0, 0) /\
-  (let hs := history (repeat_op 86 (HCallPre 1) ++ [HRun 5 Nop]) fresh in
-   option_map (fun r => sizes (snd r)) (nth_error hs 86) = Some (2, 0, 0, 0, 0)) /\
-  (let hs := history (repeat_op 170 (HCallPre 1) ++ [HCallKoto 1 5 Nop]) fresh in
-   option_map fst (nth_error hs 170) = Some HPanic).
+(* formerly known finding C07a, now a positive example: the early-exit operations are in the class, and 300
+   failing host-initiated calls of a native function (and the other early exits) leave every size at zero, as
+   does an ordinary call after them *)
+Theorem early_exit_restored :
+  forallb in_class_b [HCallPre 1; HCallPre 0; HUnopPre; HUnopPreOv; HBinopPre] = true /\
+  forallb (fun r => match sizes (snd r) with (0, 0, 0, 0, 0) => true | _ => false end)
+          (history (repeat_op 300 (HCallPre 1) ++ [HCallPre 0; HUnopPre; HUnopPreOv; HBinopPre; HCallKoto 1 5 Nop; HRun 5 Nop])
+                   fresh) = true /\
+  length (history (repeat_op 300 (HCallPre 1) ++ [HCallKoto 1 5 Nop]) fresh) = 301%nat.
 Proof. vm_compute. repeat split; reflexivity. Qed.
 
 (* known finding C07b: g = || try "{throw 1}" catch e "c" ; "a{g()}b" — the run succeeds and leaves one
@@ -69,7 +69,7 @@ Proof. reflexivity. Qed.
 Print Assumptions entry_restores_frames.
 Print Assumptions entry_restores.
 Print Assumptions history_equiv.
-Print Assumptions entry_restores_refuted_early_exit.
+Print Assumptions early_exit_restored.
 Print Assumptions entry_restores_refuted_builders.
 Print Assumptions value_to_string_clean.
 Print Assumptions compile_error_clean.
@@ -80,7 +80,7 @@ Example class_nonempty :
     [HRun 5 (Seq (Call 3 5 (Seq (Lst Nop) (Try (Call 3 5 Fail) (Str Nop)))) Fail);   (* caught at depth, then thrown *)
      HRun 5 (Call 3 5 (Try (Call 3 5 Tick) Nop));                                   (* timeout under a try *)
      HCallKoto 2 5 (Call 3 5 Fail); HUnopKoto 5 Fail; HBinopKoto 5 Tick;
-     HCallNative 1; HDisplay; HCompileError] = true.
+     HCallNative 1; HCallPre 2; HUnopPre; HBinopPre; HDisplay; HCompileError] = true.
 Proof. vm_compute. reflexivity. Qed.
 
 Example class_history_outcomes :
